@@ -243,9 +243,10 @@ def _one_result(ctx, f, name, ret, call, defst):
 
 def _renamings(ctx):
     f = ctx.method("Tensor", "_splitGeneric")
-    src = " ".join(text(s) for s in f.body).replace(" ", "")
-    e1 = pat.msearch(src, "$R[$D]=f'{id}.1'")
-    if e1 and pat.msearch(src, "$R.insert($D+1,f'{id}.0')", e1):
+    src = "\n".join(text(s) for s in f.body).replace(" ", "")
+    e1 = pat.msearch(src, "$I=$R[$D]")
+    e1 = e1 and pat.msearch(src, "$R[$D]=f'{$I}.1'", e1)
+    if e1 and pat.msearch(src, "$R.insert($D+1,f'{$I}.0')", e1):
         ctx.ok("C14.R1", f, f.node, "split renames X -> X.1, X.0",
                text_="_splitGeneric renaming")
     else:
@@ -259,7 +260,7 @@ def _renamings(ctx):
         ctx.bad("C14.R1", f, f.node, "a split no longer inserts the split "
                 "rank's shape for the new lower rank", text_="_splitGeneric shape")
     f = ctx.method("Tensor", "swapRanks")
-    src = " ".join(text(s) for s in f.body).replace(" ", "")
+    src = "\n".join(text(s) for s in f.body).replace(" ", "")
     e1 = pat.msearch(src, "$I=$R[depth]")
     if e1 and pat.msearch(src, "$R[depth]=$R[depth+1]", e1) and \
             pat.msearch(src, "$R[depth+1]=$I", e1):
@@ -342,7 +343,7 @@ def lazy_builders(ctx):
     ar = pat.kwarg(c, "active_range")
     e0 = pat.msearch(text(ar), "($L,$H)", full=True) if ar is not None else None
     if e0 is not None:
-        src = " ".join(text(s) for s in f.body).replace(" ", "")
+        src = "\n".join(text(s) for s in f.body).replace(" ", "")
         iv = pat.msearch(src, "$L,$H=interval", e0) is not None or \
             pat.msearch(src, "($L,$H)=interval", e0) is not None
         e1 = pat.msearch(src, "$S=trans_fn(self.getActive()[0])", e0)
